@@ -207,6 +207,17 @@ def variants2():
     v["mdp_rollout"] += [(R(no_goal=True), {"max_steps": 1200, "nsim": 2})]
     v["pomdp_rollout"] += [({"kind": "tiger"}, {"max_steps": 1200}), ({"kind": "loadunload", "nstates": 2}, {})]
     v["implicit"] += [({"kind": "none", "events": [1]}, {"n_samples": 1})]
+    # optional parameters that are off by default: logging / progress flags (stdout is captured and compared), print hooks,
+    # alternative strategies, thresholds (seeded change C13-19)
+    v["ga"] += [({"kind": "tiger"}, {"log_iteration_progress": 1}), ({"kind": "loadunload"}, {"log_iteration_progress": 5}),
+                ({"kind": "tiger"}, {"optimizer": "SGD"}), ({"kind": "tiger"}, {"dtype": "float32", "learning_rate": "1/100"})]
+    v["laostar"] += [(R(), {"dp_iterations": 20})]
+    v["lrtdp"] += [(R(), {"bellman_error_margin": "1/1000000"}), (R(), {"bellman_error_margin": "1"})]
+    v["astar"] += [(R(deterministic=True, n=12), {"heuristic": "nonmonotone", "assert_monotone_heuristic": False})]
+    v["td"] += [(R(reward="goal"), {"listener": "printing", "step_size": "1/10"})]
+    v["rmax"] += [(R(reward="goal"), {"listener": "printing", "bellman_convergence_diff": "1/100"})]
+    v["bpi"] += [({"kind": "tiger"}, {"convergence_diff": "1/10"})]
+    v["semimdp"] += [(R(labels="int"), {"option_names": "int", "pseudoreward": "-2"})]
     return v
 
 
@@ -246,6 +257,11 @@ def input_features(cases):
             inc("float32_numbers")
         if par.get("option_names") == "none":
             inc("unnamed_options")
+        if par.get("log_iteration_progress") or par.get("listener") == "printing":
+            inc("logging_or_print_hook_on")
+        if any(k in par for k in ("optimizer", "dtype", "learning_rate", "dp_iterations", "bellman_error_margin", "assert_monotone_heuristic",
+                                  "step_size", "bellman_convergence_diff", "convergence_diff", "pseudoreward")):
+            inc("off_by_default_optional_parameter")
         if par.get("max_steps") in (0, 1) or par.get("episodes") in (0, 1) or par.get("n_samples") == 1 or par.get("nsim") == 1:
             inc("step_or_sample_cap_0_or_1")
     return f
@@ -535,7 +551,9 @@ def report_runtime(ctx, cases, fails):
             exhibited.setdefault((comp, "carry"), items[0][1])
         else:
             qual = "seed0-only" if all(c["seed"] == 0 for c in fc) else "any-seed"
-            exhibited.setdefault((comp, "gen"), items[0][1])
+            exhibited.setdefault((comp, "entropy" if axis == "nondeterministic-under-identical-global-state" else "gen"), items[0][1])
+            if axis in ("differs-between-two-runs-in-one-process", "nondeterministic-under-identical-global-state"):
+                exhibited.setdefault((comp, "entropy"), items[0][1])
         sig = ":".join(x for x in ("C13", comp, axis, sub, qual) if x)
         detail = dict(items[0][1])
         detail["failing_cases"] = len(idx)
@@ -573,14 +591,17 @@ def static_half(ctx, exhibited, only=None):
         persists = any(o["kind"] == "KPersistentAcrossCalls" for o in off)
         aliased = any(o["kind"] == "KShufflesCallerObject" for o in off)
         counter = any(o["kind"] == "KHashOfInstanceCounter" for o in off)
-        for flag, tag, axis in ((glob, "global-generator-used", "gen"), (hsh, "hash-order-dependence", "hash"),
+        entropy = any(o["kind"] == "KUnseeded" for o in off)
+        realglob = any(o["kind"] in ("KGlobal", "KGlobalIfSeedFalsy") for o in off)
+        for flag, tag, axis in ((glob and realglob, "global-generator-used", "gen"),
+                                (glob and entropy, "entropy-or-time-source-used", "entropy"), (hsh, "hash-order-dependence", "hash"),
                                 (carried and persists, "generator-persists-across-calls", "carry"),
                                 (carried and aliased, "shuffles-callers-object-in-place", "alias"),
                                 (carried and counter, "hash-reads-instance-counter-state", "history")):
             if not flag:
                 continue
             ex = exhibited.get((c, axis))
-            kinds = {"gen": ("KGlobal", "KGlobalIfSeedFalsy", "KUnseeded"), "hash": ("KHashOrder", "KHash", "KHashDerivedSeed"),
+            kinds = {"gen": ("KGlobal", "KGlobalIfSeedFalsy"), "entropy": ("KUnseeded",), "hash": ("KHashOrder", "KHash", "KHashDerivedSeed"),
                      "carry": ("KPersistentAcrossCalls",), "alias": ("KShufflesCallerObject",),
                      "history": ("KHashOfInstanceCounter",)}[axis]
             detail = {"case": ex["case"] if ex else None,
